@@ -35,9 +35,22 @@ TInit ==
 
 Visible(p) == p \in {"gate", "chunk", "done"}
 
+\* Generator instances are only ever appended to `frames` and keep their function, and every
+\* recorded snapshot lists the generators in start order: so a behaviour that starts a generator
+\* which is not the next one of the last recorded snapshot can never be accepted.  (Pure pruning,
+\* implied by the snapshot equalities below; it keeps the search linear when a loop may or may not
+\* put an adapter generator between the data and the loop body and no recorded point intervenes.)
+LastSnap == E[Len(E)].snap
+StartsAsRecorded ==
+    Len(frames') > Len(frames) =>
+        LET n == Len(frames') - 1 IN
+        /\ n <= Len(LastSnap)
+        /\ LastSnap[n][1] = Short(frames'[n + 1].fn)
+
 TNext ==
     /\ Step
     /\ UNCHANGED tid
+    /\ StartsAsRecorded
     /\ IF phase = "run"
        THEN IF Visible(phase')
             THEN /\ l < Len(E)
